@@ -31,11 +31,12 @@ pub fn info() -> PropertyInfo {
         rule: "case = command script (pause/resume/stop/clock advance/gate open/sample at generated moments with generated yields, spins and sleeps) over 2-4 resource threads sharing 1-2 counters and 1-3 variable pairs, repeated `reps` times against fresh threads; non-trivial = in one repetition at least 2 resources completed cycles between the first and the last command AND at least one pause() or stop() call was made while a cycle of the addressed resource was in flight (the cycle had started before the call and had not finished after it); distinct by SHA-256 of the script",
         assumptions: &[
             "real OS threads: interleavings are perturbed (generated yields/spins/sleeps, repetition, oversubscribed workers), not enumerated or controlled",
-            "liveness bound 10 s for stop()+join(), pause, resume and progress after a foreign fault (normal < 100 ms); exceeding it once is inconclusive, twice in a row for the same script is a violation",
+            "liveness is judged by progress wherever the loop gives a bound: more than 50 further loop iterations (calls of Clock::now, one per iteration) or cycle starts after pause()/resume()/stop() returned without the command showing is a violation, independent of machine speed",
+            "wall clock only as a last resort for a thread that shows no progress at all (stop()+join(), progress of the others after a foreign fault): 120 s and 60 000 controller sleep ticks (normal < 100 ms); exceeded once = inconclusive, twice in a row for the same script = violation",
             "resources are observed from outside only: IoDriver callbacks (cycle start/end, private counters in the output image), a counting RetainStore, ResourceControl::state/last_error, SharedGlobals::get",
             "the generated fault precedes every shared write of its cycle; what a cycle that faults half-way writes back is not asserted",
         ],
-        workers_quick: 8,
+        workers_quick: 4,
         workers_thorough: 12,
         address_space_limit: 0,
         watchdog_quick_s: 900,
@@ -89,11 +90,11 @@ fn check_script(case: &Script, probe: &mut Probe) -> Result<(), String> {
                 RepEnd::Hang(second) => {
                     HANG_CONFIRMED.store(true, SeqCst);
                     return fail(format!(
-                        "repetition {rep}: liveness bound exceeded twice in a row for the same script: {first} / again: {second}"
+                        "repetition {rep}: last-resort liveness bound exceeded twice in a row for the same script: {first} / again: {second}"
                     ));
                 }
                 other => {
-                    INCONCLUSIVE.lock().unwrap().push(format!("liveness bound exceeded once (not repeated): {first}"));
+                    INCONCLUSIVE.lock().unwrap().push(format!("last-resort liveness bound exceeded once (not repeated): {first}"));
                     other
                 }
             };
@@ -133,6 +134,9 @@ fn check_script(case: &Script, probe: &mut Probe) -> Result<(), String> {
                 if st.samples > 0 {
                     probe.label("rep:sampled");
                 }
+                if st.pause_unobserved {
+                    probe.label("rep:paused_not_seen_within_2s");
+                }
                 probe.label("rep:total");
                 if st.overlapped >= 2 && (st.inflight_pause || st.inflight_stop) {
                     nontrivial = true;
@@ -141,7 +145,7 @@ fn check_script(case: &Script, probe: &mut Probe) -> Result<(), String> {
             }
             RepEnd::Violation(m) => return fail(format!("repetition {rep}: {m}")),
             RepEnd::Hang(m) => {
-                INCONCLUSIVE.lock().unwrap().push(format!("liveness bound exceeded on the retry only: {m}"));
+                INCONCLUSIVE.lock().unwrap().push(format!("last-resort liveness bound exceeded on the retry only: {m}"));
             }
             RepEnd::Infra(m) => {
                 INFRA.lock().unwrap().push(m);
@@ -166,6 +170,24 @@ fn check_script(case: &Script, probe: &mut Probe) -> Result<(), String> {
 
 /// Helper subcommands: `tpv c20-show <seed words...>` is not needed; None = not mine.
 pub fn helper(args: &[String]) -> Option<i32> {
+    if args.first().map(|s| s.as_str()) == Some("c20-list") {
+        // tpv c20-list <seed> <nworkers> <cases> <reps>: print the scripts every worker generates
+        let seed: u64 = args.get(1)?.parse().ok()?;
+        let nworkers: usize = args.get(2)?.parse().ok()?;
+        let cases: u32 = args.get(3)?.parse().ok()?;
+        let reps: u16 = args.get(4)?.parse().ok()?;
+        for w in 0..nworkers {
+            let mut ctx = RunCtx::new("C20-list", crate::engine::Tier::Quick, seed, w, nworkers);
+            let strat = tape_strategy(220).prop_map(move |t| script_from_tape(&t, reps));
+            let idx = std::cell::Cell::new(0u32);
+            ctx.search("scripts", strat, cases, |s: &Script, _p| {
+                println!("{}", json!({"worker": w, "index": idx.get(), "script": s}));
+                idx.set(idx.get() + 1);
+                Ok(())
+            });
+        }
+        return Some(0);
+    }
     if args.first().map(|s| s.as_str()) != Some("c20-source") {
         return None;
     }
